@@ -199,4 +199,49 @@ var plans = map[string]Plan{
 			"machines with fxp opcodes are kept out of the HDL entries (their Verilog is read from /tmp/fxpcode, absent here)",
 		},
 	},
+	"C15": {
+		Pkg:   "c15",
+		Tools: []string{"bondmachine"},
+		Runs: []Run{
+			{Test: "^TestProps$/^rule_roundtrip$", Checks: checks(5000, 100000), Shards: shards(4, 16)},
+			{Test: "^TestProps$/^sim_rules$", Checks: checks(1500, 30000), Shards: shards(4, 16)},
+			{Test: "^TestProps$/^sim_pipeline$", Checks: checks(1200, 30000), Shards: shards(4, 16)},
+			{Test: "^TestProps$/^cli_rules$", Checks: checks(30, 800), Shards: shards(4, 16)},
+		},
+		Fuzz: []Fuzz{{Target: "FuzzSimboxAdd", Time: 3 * time.Minute}},
+		Assumptions: []string{
+			"tick convention taken from the CLI loop (the docs are silent): iteration T = clear valid on consumed inputs, inject absolute:T sets (raising valid on iK), VM.Step, OutputsRecv=OutputsValid; get/show of tick T sample the state after that step; relative:P fires when T%P==0; onvalid fires on a rising end-of-iteration valid; onexit on the shutdown iteration",
+			"several set rules on one object at one tick: the last in list order wins; values are compared numerically after decoding, never by rendered text",
+			"the real bondmachine -sim binary is judged against the predictor and byte-for-byte against the harness's copy of the loop (signature replica-drift = harness stale)",
+			"negative indices for Del/Suspend/Reactivate, relative:0 rules, set on flag objects and onrecv rules are outside the domain (not promised by the statement or the docs)",
+		},
+	},
+	"C05": {
+		Pkg: "c05",
+		Runs: []Run{
+			{Test: "^TestProps$/^streams$", Checks: checks(110, 2400), Shards: shards(8, 16), Timeout: tmo(15*time.Minute, 90*time.Minute)},
+			{Test: "^TestProps$/^macro_shapes$", Checks: checks(50, 1000), Shards: shards(8, 16), Timeout: tmo(15*time.Minute, 90*time.Minute)},
+			{Test: "^TestHygiene$", NoRapid: true, Shards: shards(1, 1)},
+		},
+		Fuzz: []Fuzz{{Target: "FuzzParseAssembly", Time: 2 * time.Minute}},
+		Assumptions: []string{
+			"the reference interpreter (harness/c05/ref.go) reads the source text only: own line reader, literal reader, textual macro expansion, label resolution, entry handling, wrap at the register size; bonds are rendezvous streams",
+			"only faithfully simulated opcodes are generated; only sync IO in sections a CP runs; every IO instruction is followed by 3 non-IO instructions and fan-out is 1 (keeps clear of the handshake findings of C04); a multi-CP mismatch is first triaged against the single-CP runs",
+			"CLI switch sets are part of the case (default / -disable-dynamical-matching / -chooser-min-word-size [+ -chooser-force-same-name]); a clean refusal of mov rX,<literal> under default switches is accepted",
+			"streams are compared prefix-wise (timing-free) plus a progress bound: the machine must deliver in T ticks at least what a strict-rendezvous execution delivers in T/6 instruction rounds",
+		},
+	},
+	"C18": {
+		Pkg: "c18",
+		Runs: []Run{
+			{Test: "^TestProps$/^random$", Checks: checks(400, 4000), Shards: shards(8, 16), Timeout: tmo(15*time.Minute, 90*time.Minute)},
+			{Test: "^TestSweep$", NoRapid: true, Shards: shards(8, 1), Timeout: tmo(15*time.Minute, 90*time.Minute)},
+		},
+		Assumptions: []string{
+			"'a standard Verilog front end' is approximated by /verif's IEEE 1364-2001 subset front end (no implicit nets, synthesis translate_off regions honoured); exactly the six error classes of the statement are judged, 'unsupported' constructs are skipped and counted",
+			"machines are built through the public API and a JSON round trip as bondmachine -create-verilog does; flavour iverilog, empty simbox, no board extra modules; Write_verilog panics and tool refusals (flopoco, fxp files absent) are counted as excluded",
+			"a diagnostic whose signature <class>:<module-kind>:<identifier> is recorded as an open finding is filtered; a machine with only recorded diagnostics is counted as excluded; any unrecorded signature is a violation. A recorded syntax error can hide further diagnostics of the same module",
+			"R>=1, O>=1; vtextmem strings carry one box per processor",
+		},
+	},
 }
